@@ -45,7 +45,17 @@ def ll_periodic_shift(x):
     return 2.0 * math.cos(2 * math.pi * (x[0] + 4.0) / 10.0) - 0.5 * float(x[1] ** 2) / S ** 2
 
 
+def ll_bimodal(x):
+    # two well separated modes of unequal mass 0.3 (at x0 = -2) and 0.7 (at x0 = +2), same shape
+    a = math.log(0.3) - 0.5 * float((x[0] + 2.0) ** 2 + x[1] ** 2) / 0.4 ** 2
+    b = math.log(0.7) - 0.5 * float((x[0] - 2.0) ** 2 + x[1] ** 2) / 0.4 ** 2
+    return float(np.logaddexp(a, b))
+
+
 TARGETS = {
+    "bimodal": dict(like=ll_bimodal, logz=math.log(2 * math.pi * 0.4 ** 2 / 100.0), mean1=0.0, var1=0.4 ** 2, kw={}),
+    # the edge target with its abutting coordinate declared reflective
+    "edge_reflective": dict(like=ll_edge, logz=math.log(2 * math.pi * S ** 2 / 200.0), mean1=0.0, var1=S ** 2, kw={"reflective": [0]}),
     "periodic_shift": dict(like=ll_periodic_shift, logz=None, mean1=0.0, var1=S ** 2, kw={"periodic": [0]}, phase0=4.0),
     "corr": dict(like=ll_corr, logz=math.log(2 * math.pi * S ** 2 * math.sqrt(1 - RHO ** 2) / 100.0), mean1=0.0, var1=S ** 2, kw={}),
     "half": dict(like=ll_half, logz=math.log(0.5 * 2 * math.pi * S ** 2 / 100.0), mean1=0.0, var1=S ** 2, kw={}),
@@ -71,15 +81,29 @@ def one(a):
         ph = 2 * math.pi * (x[:, 0] + T.get("phase0", 5.0)) / 10.0
         return dict(ok=True, logz=float(s.evidence()[0]), mean=m.tolist(), var=v.tolist(),
                     circ=[float(np.sum(w * np.cos(ph))), float(np.sum(w * np.sin(ph)))],
+                    mass_left=float(np.sum(w[x[:, 0] < 0.0])), cdf0=float(np.sum(w[x[:, 0] < 2.0])),
                     cov01=float(np.sum(w * (x[:, 0] - m[0]) * (x[:, 1] - m[1]))))
     except Exception as e:
-        return dict(ok=False, err=f"{type(e).__name__}: {e}")
+        import traceback
+        tb = traceback.format_exc()
+        # the listed C14 finding (a cluster with at most d distinct training points) reached by a real run
+        known = type(e).__name__ == "LinAlgError" and "fit_mvstud" in tb and "from_particles" in tb
+        return dict(ok=False, err=f"{type(e).__name__}: {e}", known_c14=known)
+
+
+ABORTED_BY_C14 = []   # (target, cfg, seed) of runs aborted by the listed C14 finding; reported in the evidence by the callers
 
 
 def run_ensemble(target, cfg, R, npart, seed0):
+    """R seeded runs. Runs aborted by the listed C14 finding (LinAlgError in ModeStatistics.from_particles) are recorded in
+    ABORTED_BY_C14 and left out of the returned list; every other failure stays in it with ok=False."""
     jobs = [(target, cfg, seed0 + i, npart) for i in range(R)]
     with mp.get_context("fork").Pool(min(16, os.cpu_count() or 4)) as p:
-        return p.map(one, jobs)
+        res = p.map(one, jobs)
+    for j, r in zip(jobs, res):
+        if not r["ok"] and r.get("known_c14"):
+            ABORTED_BY_C14.append(dict(target=target, cfg=str(cfg), n_particles=npart, random_state=j[2]))
+    return [r for r in res if r["ok"] or not r.get("known_c14")]
 
 
 def stats(vals, true):
